@@ -215,7 +215,8 @@ def build(tier="quick", seed=0):
     b.const_values[Gs] = 6.6743e-11
     jobs = [(nm, st) for nm in IMPL for st in (False, True)]
     ctx = mp.get_context("fork")
-    with ctx.Pool(16) as pool:
+    from tpv.oblig import _die_with_parent
+    with ctx.Pool(16, initializer=_die_with_parent) as pool:
         results = pool.map(one_impl, jobs, chunksize=1)
     res = {}
     for name, st, sub, r in results:
